@@ -1,6 +1,9 @@
 mod bddgen;
 mod common;
+mod ringstream;
 mod rng;
+mod tblstream;
+mod wmcstream;
 
 use rng::Rng;
 use std::io::Write;
@@ -46,6 +49,10 @@ fn main() {
                 let tbl = [0usize, 4, 4, 8, 16][rng.below(5) as usize];
                 vec![bddgen::bdd_line(&prog, cache, tbl)]
             }
+            "ring" => ringstream::ring_lines(&mut rng, idx),
+            "tbl" => vec![tblstream::tbl_line(&mut rng, maxops)],
+            "lru" => vec![tblstream::lru_line(&mut rng, maxops)],
+            "wmc" => wmcstream::wmc_lines(&mut rng, maxvars, maxops),
             _ => {
                 eprintln!("unknown stream {}", stream);
                 std::process::exit(2);
